@@ -404,6 +404,25 @@ theorem accept_iff_lenient_strings (s : Str) (toks : List Tok) (htok : smilesTok
   · rintro ⟨h1, h2⟩; exact ⟨h1, h2, hneo⟩
   · rintro ⟨h1, h2, _⟩; exact ⟨h1, h2⟩
 
+/-- the two grammars of the spec agree where they should: the strict OpenSMILES language is exactly the part of the
+    lenient one in which no ring bond is written after a `)` (proved through the parser: both sides are equivalent to
+    acceptance, and the denoted graphs coincide with what `parser` returns) -/
+theorem strict_language_iff_lenient (toks : List Tok) :
+    InLanguage toks ↔ (InLanguageL toks ∧ noRingAfterClose toks = true) := by
+  constructor
+  · intro h
+    have hring : ∀ t ∈ toks, ringTok t = true := by
+      obtain ⟨c, _, hc, _⟩ := h
+      rw [hc]; exact printR_ringTok c
+    obtain ⟨hacc, hsa, hneo, hnrac⟩ := (accept_iff_ring_discipline_partial toks hring).mpr h
+    exact ⟨(accept_iff_lenient_language toks hring).mp ⟨hacc, hsa, hneo⟩, hnrac⟩
+  · rintro ⟨h, hnrac⟩
+    have hring : ∀ t ∈ toks, ringTok t = true := by
+      obtain ⟨c, _, hc, _⟩ := h
+      rw [hc]; exact printChainL_ringTok c
+    obtain ⟨hacc, hsa, hneo⟩ := (accept_iff_lenient_language toks hring).mpr h
+    exact (accept_iff_ring_discipline_partial toks hring).mp ⟨hacc, hsa, hneo, hnrac⟩
+
 example : InLanguageL [tC, .lpar, tC, .rpar, .cyc 1, tC, tC, .cyc 1] :=        -- C(C)1CC1
   (accept_iff_lenient_language _ (by decide)).mp ⟨⟨_, rfl, _, _, rfl, rfl⟩, rfl, rfl⟩
 
